@@ -28,8 +28,15 @@ DEFECTS = [("shipped-simplify", "Clause2Html"), ("shipped-capture", "Clause4Capt
 
 URLS = ["http://x.test/a?b=1&c=2", "https://e.test/p?q=\"><i>&lt;x</i>"]      # any string may be a link target
 CSS = ["none", "standard", "256", "truecolor"]
-NASTY = ["<", ">", "&", "&lt;", "&amp;", "&#38;", "<b>", "</pre>", "\"", "'", "&&", "<>", "&gt", "<!--", "]]>", "&nbsp;", "</code>", "<a href=x>"]
-WIDE = ["世界", "ｗ", "한", "é", "😀"]
+CSS_M3 = CSS + ["windows"]            # the random histories also run on the 16-colour legacy-Windows palette
+NASTY = ["<", ">", "&", "&lt;", "&amp;", "&#38;", "<b>", "</pre>", "\"", "'", "&&", "<>", "&gt", "<!--", "]]>", "&nbsp;", "</code>", "<a href=x>",
+         "&#x27;", "\xa0", "&amp;lt;", "{code}", "{}", "{", "}", "%s", "<pre>", "</span>", "<style>", "&quot;", "\\", "[b]", "[/]", "<br>", "&#60;", "&copy",
+         "<span style=\"x\">"]
+WIDE = ["\u4e16\u754c", "\uff57", "\ud55c", "\xe9", "\U0001f600", "e\u0301", "\u200b", "\u00ad", "\U0001f1e9\U0001f1ea", "\u2028"]
+# export_html(theme=, code_format=): another palette, another page around the same <pre>
+FORMATS = {"bare": "<pre>{code}</pre><style>{stylesheet}</style>",
+           "page": "<html><head><style>{stylesheet}body {{ color: {foreground}; background-color: {background}; }}</style></head>"
+                   "<body><h1>&lt;T&gt;</h1><code><pre class=\"x\">{code}</pre></code><p>after</p></body></html>"}
 WORDS = ["lorem", "ipsum", "dolor", "sit", "amet"]
 
 
@@ -133,10 +140,13 @@ def closing_exports():
 
 
 def random_case(rng, maxops):
-    cfg = dict(cs=rng.choice(CSS), term=rng.random() < 0.6, width=rng.choice([12, 20, 30, 40, 80]), record=rng.random() < 0.98, nocolor=rng.random() < 0.15)
+    cfg = dict(cs=rng.choice(CSS_M3), term=rng.random() < 0.6, width=rng.choice([12, 20, 30, 40, 80]), record=rng.random() < 0.98, nocolor=rng.random() < 0.15,
+               cstyle=rng.choice([""] * 6 + ["on blue", "italic", "bold red"]))
     captures = rng.random() < 0.5
+    theme = rng.random() < 0.2
+    blocks = rng.random() < 0.3          # "with console:" blocks (output is held back until the block ends)
     n = rng.randint(2, maxops)
-    chunks, ops, depth = {}, [], 0
+    chunks, ops, depth, held = {}, [], 0, 0
 
     def new(kinds=None):
         i = len(chunks) + 1
@@ -146,7 +156,7 @@ def random_case(rng, maxops):
     while len(ops) < n:
         r = rng.random()
         if r < 0.30:
-            rb = rng.choice(["plain", "plain", "plain", "spans", "panel", "table"])
+            rb = rng.choice(["plain", "plain", "plain", "plain", "spans", "spans", "panel", "table", "padding", "columns", "segs", "out"])
             if rb == "plain":
                 ch = [new() for _ in range(rng.choice([1, 1, 2, 3]))]
             elif rb == "spans":
@@ -154,16 +164,27 @@ def random_case(rng, maxops):
             else:
                 ch = [new(["plain", "special", "wide", "styled"]) for _ in range(rng.choice([1, 2]))]
             kw = {}
-            if rng.random() < 0.25:
-                kw = rng.choice([dict(end=""), dict(justify="center"), dict(justify="right"), dict(style="bold"), dict(style="on red"),
-                                 dict(soft_wrap=True), dict(no_wrap=True), dict(crop=False), dict(sep="&"), dict(end="<br>\n"), dict(width=10)])
+            if rb == "out":
+                if rng.random() < 0.4:
+                    kw = rng.choice([dict(end=""), dict(sep="<&>"), dict(style="bold"), dict(end="&amp;\n")])
+            elif rng.random() < 0.3:
+                one = lambda: rng.choice([dict(end=""), dict(justify="center"), dict(justify="right"), dict(justify="full"), dict(style="bold"), dict(style="on red"),
+                                          dict(soft_wrap=True), dict(no_wrap=True), dict(crop=False), dict(sep="&"), dict(end="<br>\n"), dict(width=10),
+                                          dict(overflow="fold"), dict(overflow="ellipsis"), dict(overflow="crop"), dict(overflow="ignore"), dict(markup=True),
+                                          dict(highlight=True), dict(emoji=True), dict(sep="\n"), dict(end=" > "), dict(width=5)])
+                kw = one()
+                if rng.random() < 0.3:
+                    kw = dict(one(), **kw)      # two options at once
+                if kw.get("markup") and any("[" in chunks[str(i)]["text"] for i in ch):
+                    del kw["markup"]            # (a stray closing tag raises MarkupError: C04's and C14's subject)
             ops.append(dict(k="print", ch=ch, rb=rb, kw=kw))
         elif r < 0.33:
             ops.append(dict(k="print", ch=[], rb="plain", kw={}))        # print() = line()
         elif r < 0.38:
             ops.append(dict(k="log", ch=[new(["plain", "special", "styled", "wide"]) for _ in range(rng.choice([1, 2]))]))
         elif r < 0.43:
-            ops.append(dict(k="rule", ch=[new(["plain", "special", "wide"])] if rng.random() < 0.6 else [], align=rng.choice(["center", "left", "right"])))
+            ops.append(dict(k="rule", ch=[new(["plain", "special", "wide"])] if rng.random() < 0.6 else [], align=rng.choice(["center", "left", "right"]),
+                            chars=rng.choice([None, None, "=", "<>", "&-"]), style=rng.choice([None, None, "red", "on blue"])))
         elif r < 0.50:
             ops.append(dict(k="line", n=rng.choice([0, 1, 1, 2, 3])))
         elif r < 0.56:
@@ -175,19 +196,27 @@ def random_case(rng, maxops):
         elif r < 0.67:
             ops.append(dict(k="control", code=rng.choice(["\x1b[1A", "\x1b[2K\r", "\x1b[10;10H", "\x07\x07"])))
         elif r < 0.73:
-            if captures and depth < 3:
+            if captures and depth < 3 and held == 0:
                 ops.append(dict(k="begin", api=rng.choice(["method", "ctx"])))
                 depth += 1
+            elif blocks and depth == 0 and held < 2:
+                # (not around or inside capture blocks: the reference console would hold back what the capture returns at once)
+                ops.append(dict(k="enter"))
+                held += 1
         elif r < 0.80:
             if depth > 0:
                 ops.append(dict(k="end"))
                 depth -= 1
+            elif held > 0:
+                ops.append(dict(k="exit"))
+                held -= 1
         else:
             clear = rng.random() < 0.4
             if rng.random() < 0.5:
                 e = dict(k="text", clear=clear, styles=rng.random() < 0.5, save=rng.random() < 0.1)
             else:
-                e = dict(k="html", clear=clear, inline=rng.random() < 0.5, save=rng.random() < 0.1)
+                # (one palette per history: the comparison of inline against class styles between two exports is by rule text)
+                e = dict(k="html", clear=clear, inline=rng.random() < 0.5, save=rng.random() < 0.1, theme=theme, fmt=rng.choice([None, None, None, "bare", "page"]))
             ops.append(e)
             if rng.random() < 0.5:       # an export straight after an export: clause 5, inline against class styles
                 e2 = dict(e, clear=rng.random() < 0.5)
@@ -197,6 +226,7 @@ def random_case(rng, maxops):
                     e2 = dict(k="text", clear=e2["clear"], styles=not e["styles"], save=False)
                 ops.append(e2)
     ops += [dict(k="end")] * depth
+    ops += [dict(k="exit")] * held
     ops += closing_exports()
     return dict(cfg=cfg, chunks=chunks, ops=ops)
 
@@ -228,13 +258,17 @@ def cell_width(text):
 
 
 def execute(case, tmpdir):
+    from rich.columns import Columns
     from rich.console import Console
     from rich.control import Control
+    from rich.padding import Padding
     from rich.panel import Panel
+    from rich.segment import Segment
     from rich.table import Table
     from rich.text import Text
     cfg, chunks, ops = case["cfg"], case["chunks"], case["ops"]
     cfg.setdefault("nocolor", False)
+    cfg.setdefault("cstyle", "")
     styles = style_pool()
     clock = [0]
 
@@ -245,7 +279,7 @@ def execute(case, tmpdir):
         tap = Tap()
         return Console(file=tap, record=record, force_terminal=cfg["term"], color_system=None if cfg["cs"] == "none" else cfg["cs"],
                        width=cfg["width"], height=25, markup=False, highlight=False, emoji=False, legacy_windows=False,
-                       get_datetime=now, _environ={}, no_color=bool(cfg.get("nocolor", False))), tap
+                       get_datetime=now, _environ={}, no_color=bool(cfg.get("nocolor", False)), style=cfg.get("cstyle") or None), tap
     real, rtap = mk(cfg["record"])
     twin, ttap = mk(False)
     nchunks = max([int(i) for i in chunks] + [1])
@@ -269,10 +303,12 @@ def execute(case, tmpdir):
     events = []
     caps = []
     raw = []          # for samples / replays only
+    held = 0          # depth of `with console:` blocks
     for n, op in enumerate(ops):
         clock[0] = n // 3
         k = op["k"]
-        e = dict(k=k, exc="none")
+        e = dict(k=k, exc="none", held=held > 0 or k == "exit")
+        held += (k == "enter") - (k == "exit")
         res = None
         try:
             if k in ("print", "log"):
@@ -283,6 +319,19 @@ def execute(case, tmpdir):
                     objs = [obj(i) for i in op["ch"]]
                 elif rb == "spans":
                     objs = [Text.assemble(*[(c["text"], styles[c["sid"]]) if c["sid"] else c["text"] for c in cs_])]
+                elif rb == "padding":
+                    objs = [Padding(obj(op["ch"][0]), (0, 1, 1, 2), style=styles[2])] + [obj(i) for i in op["ch"][1:]]
+                elif rb == "columns":
+                    objs = [Columns([obj(i) for i in op["ch"]] + ["<&>"], padding=(0, 1))]
+                elif rb == "segs":
+                    class Segs:
+                        def __rich_console__(self, console, options):
+                            for c in cs_:
+                                yield Segment(c["text"], styles[c["sid"]] if c["sid"] else None)
+                            yield Segment("\n")
+                    objs = [Segs()]
+                elif rb == "out":
+                    objs = [c["text"] for c in cs_ if c["obj"] != "c"] or [""]
                 elif rb == "panel":
                     objs = [Panel(Text("\n".join(c["text"] for c in cs_)), title="T<&>" if len(cs_) > 1 else None, border_style=styles[1], expand=False)]
                 else:
@@ -291,12 +340,17 @@ def execute(case, tmpdir):
                     t.add_column("<h2>")
                     t.add_row(*([obj(i) for i in op["ch"]] + [""])[:2])
                     objs = [t]
-                judged = rb in ("plain", "spans") and not kw.get("style") and k == "print" or (k == "log" and rb == "plain")
+                judged = (rb in ("plain", "spans") and not kw.get("style") and k == "print" or (k == "log" and rb == "plain")) and not cfg.get("cstyle") \
+                    and not (kw.get("markup") or kw.get("highlight") or kw.get("emoji"))
                 for i in op["ch"]:
                     c = chunks[str(i)]
                     if judged and c["obj"] != "c" and int(i) in labelled:
                         sty[int(i) - 1] = c["sid"]
-                if k == "print":
+                if k == "print" and rb == "out":
+                    for con in (real, twin):
+                        con.out(*objs, **kw)
+                    e["simple"], e["ch"] = False, []
+                elif k == "print":
                     for con in (real, twin):
                         con.print(*objs, **kw)
                     total = sum(cell_width(c["text"]) + 1 for c in cs_)
@@ -308,8 +362,13 @@ def execute(case, tmpdir):
                         con.log(*objs)
             elif k == "rule":
                 title = chunks[str(op["ch"][0])]["text"] if op["ch"] else ""
+                rkw = dict(align=op.get("align", "center"))
+                if op.get("chars"):
+                    rkw["characters"] = op["chars"]
+                if op.get("style"):
+                    rkw["style"] = op["style"]
                 for con in (real, twin):
-                    con.rule(title, align=op.get("align", "center"))
+                    con.rule(title, **rkw)
             elif k == "line":
                 e["n"] = op["n"]
                 for con in (real, twin):
@@ -326,6 +385,12 @@ def execute(case, tmpdir):
             elif k == "control":
                 for con in (real, twin):
                     con.control(op["code"])
+            elif k == "enter":
+                for con in (real, twin):
+                    con.__enter__()
+            elif k == "exit":
+                for con in (real, twin):
+                    con.__exit__(None, None, None)
             elif k == "begin":
                 if op.get("api") == "ctx":
                     cap = real.capture()
@@ -359,11 +424,11 @@ def execute(case, tmpdir):
                 e.update(clear=op["clear"], inline=op["inline"], chars=[], rule=[], link=[])
                 if op.get("save"):
                     path = os.path.join(tmpdir, "export.html")
-                    real.save_html(path, clear=op["clear"], inline_styles=op["inline"])
+                    real.save_html(path, clear=op["clear"], inline_styles=op["inline"], **html_options(op))
                     with open(path, encoding="utf-8", newline="") as f:
                         res = f.read()
                 else:
-                    res = real.export_html(clear=op["clear"], inline_styles=op["inline"])
+                    res = real.export_html(clear=op["clear"], inline_styles=op["inline"], **html_options(op))
                 e["chars"], e["rule"], e["link"] = html_project(res, URLS, rules_of(case))
         except Exception as ex:          # a crash inside Rich is an observation
             e["exc"] = type(ex).__name__
@@ -378,6 +443,16 @@ def execute(case, tmpdir):
             break                        # the console's buffer state after an exception is not the subject
     case.pop("_rules", None)
     return dict(cfg=cfg, sty=sty, text=texts, events=events), raw
+
+
+def html_options(op):
+    kw = {}
+    if op.get("theme"):
+        from rich.terminal_theme import TerminalTheme
+        kw["theme"] = TerminalTheme((1, 2, 3), (250, 251, 252), [(i * 16, 255 - i * 16, i) for i in range(8)], [(i * 16 + 8, 200 - i * 8, 255 - i) for i in range(8)])
+    if op.get("fmt"):
+        kw["code_format"] = FORMATS[op["fmt"]]
+    return kw
 
 
 def rules_of(case):
@@ -525,12 +600,24 @@ def judge_batch(chk, todo, tmpdir, rnd, state):
     return again
 
 
+def _disarm_watchdog_at_exit():
+    """engine/watch.py's repeating CPU tick is still armed when the interpreter shuts down; once Python has restored the default
+    signal dispositions a tick kills the process (SIGVTALRM) and the exit status of a finished check is lost - seen after the
+    thorough tier, whose 100 000 records take long to free.  Disarm it first (atexit runs before the handlers are restored)."""
+    import atexit
+    import signal
+    atexit.register(lambda: signal.setitimer(signal.ITIMER_VIRTUAL, 0))
+
+
 def run(chk: Check):
+    _disarm_watchdog_at_exit()
     chk.rule = ("a case is (console configuration: colour system x terminal x width x record, call list); call lists are every history of "
                 "GenDepth calls of MC_Record, TLC-simulated longer ones, and seeded random histories of up to 30 calls over print (strings "
                 "with < > & quotes entities, Text with styles / links / wide characters, bare newlines, Control, Text.assemble spans, Panel, "
-                "Table, print options), log, rule, line, bell, clear, show_cursor, control, begin/end capture (nested <= 3, method or context "
-                "manager), export_text / save_text (clear x styles), export_html / save_html (clear x inline); every history ends with the "
+                "Table, Padding, Columns, a renderable yielding Segments, console.out, one or two print options incl. overflow / markup / highlight / "
+                "emoji), log, rule (characters, style), line, bell, clear, show_cursor, control, `with console:` blocks, begin/end capture (nested <= 3, method or context "
+                "manager), export_text / save_text (clear x styles), export_html / save_html (clear x inline x terminal theme x code_format); colour systems incl. the Windows palette, "
+                "NO_COLOR, a console-level base style; every history ends with the "
                 "three exports; distinct by (cfg, chunks, ops); non-trivial = at least one judged export after a write, or a capture block")
     chk.trusted = ["engine/ansilex.py:lex (ANSI stream -> text / SGR / OSC-8 / control tokens; chunk labels by literal match)",
                    "engine/ansilex.py:html_project (html.parser: tags removed, entities decoded, <pre> content only)",
